@@ -2,15 +2,18 @@
  * and search().  -D: N, KEY_U, KEY_BITS, EPS. */
 #include "harness.h"
 typedef KEY_U ukey_t;
-unsigned int UNIT(u_bucketing)(ukey_t *d, unsigned long n, ukey_t *q, unsigned long *out);
-#define ORD_MAX ((1ULL << (KEY_BITS)) - 1)
+#ifndef UFUNC
+#define UFUNC u_bucketing
+#endif
+unsigned int UNIT(UFUNC)(ukey_t *d, unsigned long n, ukey_t *q, unsigned long *out);
+#define ORD_MAX ((KEY_BITS) == 64 ? ~0ULL : ((1ULL << (KEY_BITS)) - 1))
 VERIF_MAIN {
   const unsigned long n = N;
   unsigned long long ord[N]; ukey_t d[N];
   for (int i = 0; i < N; i++) { ord[i] = IN(i ? ord[i - 1] : 0, ORD_MAX - 1); d[i] = (ukey_t) ord[i]; }
   unsigned long long qo = IN(0, ORD_MAX - 1); ukey_t q = (ukey_t) qo;
   unsigned long out[5] = {0, 0, 0, 0, 0};
-  unsigned int rc = UNIT(u_bucketing)(d, n, &q, out);
+  unsigned int rc = UNIT(UFUNC)(d, n, &q, out);
   unsigned long pos = out[0], lo = out[1], hi = out[2];
   OUT(rc); OUT(pos); OUT(lo); OUT(hi); OUT(out[3]); OUT(out[4]);
   ASSERT(rc == 0, "construction and search on valid input do not throw");
@@ -20,7 +23,9 @@ VERIF_MAIN {
   ASSERT(hi - lo <= 2 * (EPS) + 2, "C09 hi - lo <= 2*Epsilon+2");
   ASSERT(lo <= lb && lb <= hi, "C09 lower_bound over [lo,hi) equals the global lower_bound");
   if (lb < n && ord[lb] == qo) ASSERT(lb < hi, "C09 first occurrence of a present key lies in [lo,hi)");
+#ifndef NO_EMPTY_RANGES
   if (qo < ord[0]) ASSERT(lo == 0 && hi == 0, "C09 keys below the first key yield the empty range at 0");
   if (qo > ord[N - 1]) ASSERT(lo == n && hi == n, "C09 keys above the last key yield the empty range at n");
+#endif
   VERIF_END;
 }
